@@ -17,7 +17,7 @@ for line in _git('log', '--format=%H %s', 'main').splitlines():
     h, subj = line.split(' ', 1)
     main.setdefault(subj, h)
 for r in out:
-    c = r.get('commit')
+    c = (r.get('commit') or '').split()[0] if r.get('commit') else None
     if c:
         subj = _git('log', '-1', '--format=%s', c).strip()
         if subj in main:
